@@ -199,7 +199,7 @@ pub fn wfile_strategy(o: WOpts) -> BoxedStrategy<WFile> {
                     revisions.push(WRevision { objects: objs, trailer: doc.trailer.clone() });
                 }
             }
-            WFile { version: doc.version.clone(), binary_mark: doc.binary_mark.clone(), junk: B(junk), xref_stream, objstm, revisions, tape: B(tape), raw_eol_in_strings: o.raw_eol }
+            WFile { version: doc.version.clone(), binary_mark: doc.binary_mark.clone(), junk: B(junk), xref_stream, objstm, revisions, tape: B(tape), raw_eol_in_strings: o.raw_eol, quirks: 0 }
         })
         .boxed()
 }
